@@ -163,6 +163,10 @@ var genFns = []genFn{
 	{name: "Round", mut: true, gen: func(g orb.Geometry) genVal {
 		return gvGeom(orb.Round(project.Geometry(g, func(p orb.Point) orb.Point { return orb.Point{p[0] + 0.3, p[1] - 0.3} }), 1))
 	}},
+	// Round without a factor: the package-level orb.DefaultRoundingFactor (six decimals) applies
+	{name: "Round.default", mut: true, gen: func(g orb.Geometry) genVal {
+		return gvGeom(orb.Round(project.Geometry(g, func(p orb.Point) orb.Point { return orb.Point{p[0] + 3e-7, p[1] - 3e-7} })))
+	}},
 	{name: "planar.Area", gen: func(g orb.Geometry) genVal { return gvNum(planar.Area(g), 2) },
 		typed: func(g orb.Geometry) (genVal, bool) { // a bound is measured as the polygon it denotes
 			if b, ok := g.(orb.Bound); ok && !b.IsEmpty() {
